@@ -15,6 +15,29 @@ static void dy(double d) {
     while ((mi & 1) == 0 && ee < 0) { mi >>= 1; ee++; }
     if (ee >= 0) printf(" %lld 0", mi << ee); else printf(" %lld %lld", mi, -ee);
 }
+static void dump_set(ll lam) {
+    TFheGateBootstrappingParameterSet *p = new_default_gate_bootstrapping_parameters((int32_t) lam);
+    const LweParams *lp = p->in_out_params; const TGswParams *gp = p->tgsw_params; const TLweParams *tp = gp->tlwe_params;
+    printf("%lld OK %d", lam, lp->n); dy(lp->alpha_min); dy(lp->alpha_max);
+    printf(" %d %d", tp->N, tp->k); dy(tp->alpha_min); dy(tp->alpha_max);
+    printf(" %d %d %d %d %u %d %u", gp->l, gp->Bgbit, gp->Bg, gp->halfBg, gp->maskMod, gp->kpl, gp->offset);
+    printf(" %d %d %d", p->ks_t, p->ks_basebit, tp->extracted_lweparams.n);
+    dy(tp->extracted_lweparams.alpha_min);
+    for (int i = 0; i < gp->l; i++) printf(" %d", gp->h[i]);
+    printf("\n"); fflush(stdout);
+}
+// histories: several requests in ONE process (a selector whose answer depends on earlier requests is wrong)
+static void history(int id, const std::vector<ll> &seq) {
+    fflush(stdout);
+    pid_t pid = fork();
+    if (pid == 0) {
+        if (!freopen("/dev/null", "w", stderr)) {}
+        for (size_t i = 0; i < seq.size(); i++) { printf("H %d %zu ", id, i); dump_set(seq[i]); }
+        _exit(0);
+    }
+    int st = 0; waitpid(pid, &st, 0);
+    if (WIFSIGNALED(st) || WEXITSTATUS(st) != 0) printf("H %d -1 0 ABORT 0\n", id);
+}
 int main() {
     std::vector<ll> lams; for (ll l = -5; l <= 300; l++) lams.push_back(l);
     lams.push_back(INT_MIN); lams.push_back(INT_MAX); lams.push_back(INT_MIN + 1); lams.push_back(1000000);
@@ -23,20 +46,17 @@ int main() {
         pid_t pid = fork();
         if (pid == 0) {
             if (!freopen("/dev/null", "w", stderr)) {}
-            TFheGateBootstrappingParameterSet *p = new_default_gate_bootstrapping_parameters((int32_t) lam);
-            const LweParams *lp = p->in_out_params; const TGswParams *gp = p->tgsw_params; const TLweParams *tp = gp->tlwe_params;
-            printf("%lld OK %d", lam, lp->n); dy(lp->alpha_min); dy(lp->alpha_max);
-            printf(" %d %d", tp->N, tp->k); dy(tp->alpha_min); dy(tp->alpha_max);
-            printf(" %d %d %d %d %u %d %u", gp->l, gp->Bgbit, gp->Bg, gp->halfBg, gp->maskMod, gp->kpl, gp->offset);
-            printf(" %d %d %d", p->ks_t, p->ks_basebit, tp->extracted_lweparams.n);
-            dy(tp->extracted_lweparams.alpha_min);
-            for (int i = 0; i < gp->l; i++) printf(" %d", gp->h[i]);
-            printf("\n"); fflush(stdout);
+            dump_set(lam);
             _exit(0);
         }
         int st = 0; waitpid(pid, &st, 0);
         if (WIFSIGNALED(st)) printf("%lld ABORT %d\n", lam, WTERMSIG(st));
         else if (WEXITSTATUS(st) != 0) printf("%lld EXIT %d\n", lam, WEXITSTATUS(st));
     }
+    std::vector<ll> up, down, mix;
+    for (ll l = 1; l <= 128; l++) { up.push_back(l); down.push_back(129 - l); }
+    ll m[] = {80, 128, 80, 81, 1, 128, 100, 50, 81, 80};
+    for (ll x : m) mix.push_back(x);
+    history(0, up); history(1, down); history(2, mix);
     return 0;
 }
